@@ -172,7 +172,7 @@ package sqlx
 //@ func (*commonConn).ExecCtx
 //@   prop C01, C11
 //@   opaque startSpan, endSpan, Inc
-//@   ensures [under-breaker-with-acceptable] calls(db.brk.DoWithAcceptable) == 1 && err == ret(DoWithAcceptable)
+//@   ensures [under-breaker-with-acceptable] calls(db.brk.DoWithAcceptable) == 1 && err == ret(DoWithAcceptable) && ismethod(arg(db.brk.DoWithAcceptable, 1), db, "acceptable")
 //@ func (*commonConn).ExecCtx$2
 //@   prop C01, C11
 //@   opaque exec, onError
@@ -181,7 +181,7 @@ package sqlx
 //@ func (*commonConn).TransactCtx
 //@   prop C01, C11
 //@   opaque startSpan, endSpan, Inc
-//@   ensures [under-breaker-with-acceptable] calls(db.brk.DoWithAcceptable) == 1 && err == ret(DoWithAcceptable)
+//@   ensures [under-breaker-with-acceptable] calls(db.brk.DoWithAcceptable) == 1 && err == ret(DoWithAcceptable) && ismethod(arg(db.brk.DoWithAcceptable, 1), db, "acceptable")
 //@ func (*commonConn).TransactCtx$2
 //@   prop C01, C11
 //@   opaque transact
@@ -224,3 +224,8 @@ package sqlx
 //@   prop C11
 //@   opaque startSpan, endSpan, exec
 //@   ensures [on-the-transaction] calls(exec) == 1 && arg(exec, 2) == query && arg(exec, 3) == args && unbox(arg(exec, 1), ptr(sql.Tx)) == t.Tx && result == ret(exec, 0) && err == ret(exec, 1)
+
+//@ func (*commonConn).PrepareCtx
+//@   prop C01, C11
+//@   opaque startSpan, endSpan, Inc
+//@   ensures [under-breaker-with-acceptable] calls(db.brk.DoWithAcceptable) == 1 && err == ret(DoWithAcceptable) && ismethod(arg(db.brk.DoWithAcceptable, 1), db, "acceptable")
